@@ -122,7 +122,7 @@ class DatagroupSpec:
 
     def canon(self, impl):
         g = impl.obj
-        return [[k, describe_member(g._container[k])] for k in g._container]
+        return [[[k, describe_member(g._container[k])] for k in g._container], history.hidden_state(g, ("_container", "name", "parent"))]
 
     def _tag(self, model=None, key=None):
         # values differ between successive insertions under one key so that a stale value
@@ -135,7 +135,7 @@ class DatagroupSpec:
         tag = self._tag(model, key)
         val = make_value(kind, tag)
         exp = model.set_expect(key, kind)
-        before = self.canon(impl)
+        before = self.canon(impl)[0]
         try:
             via(key, val)
             got = "accept"
@@ -146,7 +146,7 @@ class DatagroupSpec:
         if got == "accept":
             model.d[key] = (kind, tag)
         else:
-            if self.canon(impl) != before:
+            if self.canon(impl)[0] != before:
                 problems.append(("C20:dg-rejected-insert-changed-group", {"key": key, "kind": kind}))
         return got
 
@@ -198,7 +198,7 @@ class DatagroupSpec:
                 pass
             elif c is g or c._container is g._container:
                 problems.append(("C20:dg-copy-not-a-new-container", {}))
-            if self.canon(Box(c)) != self.canon(impl):
+            if self.canon(Box(c))[:-2 if len(self.canon(impl)) > 2 else 1] != self.canon(impl)[:-2 if len(self.canon(impl)) > 2 else 1]:
                 problems.append(("C20:dg-copy-differs", {}))
             for k in g.keys():
                 if c[k] is not g[k]:
@@ -404,7 +404,8 @@ class DatasetSpec:
 
     def canon(self, impl):
         ds = impl.obj
-        return [[[k, describe_group(ds.groups[k])] for k in ds.groups], sorted(ds.meta.items())]
+        return [[[k, describe_group(ds.groups[k])] for k in ds.groups], sorted(ds.meta.items()), history.hidden_state(ds, ("groups", "meta")),
+                [history.hidden_state(g, ("_container", "name", "parent")) for g in ds.groups.values()]]
 
     def step(self, impl, model, op):
         import osyris
@@ -478,7 +479,7 @@ class DatasetSpec:
                 problems.append(("C20:ds-copy-not-a-new-container", {}))
             if c.meta is ds.meta:
                 problems.append(("C20:ds-copy-shares-meta", {}))
-            if self.canon(Box(c)) != self.canon(impl):
+            if self.canon(Box(c))[:-2 if len(self.canon(impl)) > 2 else 1] != self.canon(impl)[:-2 if len(self.canon(impl)) > 2 else 1]:
                 problems.append(("C20:ds-copy-differs", {}))
             for k in ds.keys():
                 if c[k] is not ds[k]:
